@@ -94,14 +94,40 @@ pub fn gen_case(t: &mut Tape) -> Case {
         src = src.replace(&format!("@TAG{k}@"), if *has { ", \"tag\"" } else { "" });
     }
     let top_tag = if lts[0] { ", \"tag\"" } else { "" };
+    // in addition to the chain: an (a)sync fn whose output type mentions an explicit lifetime parameter of the fn
+    let pick = t.weighted(&[2, 2, 1]); // 0 none, 1 async, 2 sync
+    if pick > 0 {
+        let q = if pick == 1 { "async " } else { "" };
+        let y = if pick == 1 { "crate::rt::yield_once().await; " } else { "" };
+        let in_mod = t.chance(1, 3);
+        let f = format!("{q}fn pick<'a>(_deps: &impl ::core::any::Any, xs: &'a [u64]) -> &'a u64 {{ let v = vec![xs[0]]; {y}&xs[(v[0] % 2) as usize] }}");
+        if in_mod {
+            src.push_str(&format!("#[::entrait::entrait(pub Pick)]\npub mod pm {{\n    pub {f}\n}}\nuse pm::pick;\n"));
+        } else {
+            src.push_str(&format!("#[::entrait::entrait(pub Pick)]\n{f}\n"));
+        }
+        src.push_str(&format!("{q}fn gpick<'a>(xs: &'a [u64]) -> &'a u64 {{ let v = vec![xs[0]]; {y}&xs[(v[0] % 2) as usize] }}\n"));
+    }
     let top_async = is_async(0);
     let call = |e: &str| if top_async { format!("rt::block_on_pinned({e})") } else { e.to_string() };
     src.push_str(&format!(
-        "pub fn run() -> Vec<String> {{\n    let mut fails = vec![];\n    let app = ::entrait::Impl::new(App);\n    // warm-up (lazy statics, thread-locals)\n    let w1 = {};\n    let w2 = {};\n    let a0 = rt::allocs();\n    let plain = {};\n    let a1 = rt::allocs();\n    let via = {};\n    let a2 = rt::allocs();\n    rt::expect_eq(&mut fails, \"result of the trait chain vs the plain chain\", &via, &plain);\n    if a1 - a0 == 0 {{ fails.push(\"HARNESS: the plain chain did not allocate\".to_string()); }}\n    rt::expect_eq(&mut fails, \"heap allocations of the trait chain vs the plain chain\", &(a2 - a1), &(a1 - a0));\n    fails\n}}\n",
+        "pub fn run() -> Vec<String> {{\n    let mut fails = vec![];\n    let app = ::entrait::Impl::new(App);\n    // warm-up (lazy statics, thread-locals)\n    let w1 = {};\n    let w2 = {};\n    let a0 = rt::allocs();\n    let plain = {};\n    let a1 = rt::allocs();\n    let via = {};\n    let a2 = rt::allocs();\n    rt::expect_eq(&mut fails, \"result of the trait chain vs the plain chain\", &via, &plain);\n    if a1 - a0 == 0 {{ fails.push(\"HARNESS: the plain chain did not allocate\".to_string()); }}\n    rt::expect_eq(&mut fails, \"heap allocations of the trait chain vs the plain chain\", &(a2 - a1), &(a1 - a0));\n{}    fails\n}}\n",
         call(&format!("g0(5{top_tag})")),
         call(&format!("app.f0(5{top_tag})")),
         call(&format!("g0(7{top_tag})")),
-        call(&format!("app.f0(7{top_tag})"))
+        call(&format!("app.f0(7{top_tag})")),
+        if pick > 0 {
+            let c = |e: &str| if pick == 1 { format!("rt::block_on_pinned({e})") } else { e.to_string() };
+            format!(
+                "    let xs = [4u64, 9u64];\n    let _w = (*{}, *{});\n    let b0 = rt::allocs();\n    let p_plain = *{};\n    let b1 = rt::allocs();\n    let p_via = *{};\n    let b2 = rt::allocs();\n    rt::expect_eq(&mut fails, \"borrowed-output fn: result\", &p_via, &p_plain);\n    rt::expect_eq(&mut fails, \"borrowed-output fn: heap allocations through the trait vs direct\", &(b2 - b1), &(b1 - b0));\n",
+                c("gpick(&xs)"),
+                c("app.pick(&xs)"),
+                c("gpick(&xs)"),
+                c("app.pick(&xs)")
+            )
+        } else {
+            String::new()
+        }
     ));
     let mut classes = vec![["end:plain_fn", "end:leaf_trait", "end:impl_block"][end]];
     if any_async {
@@ -112,6 +138,9 @@ pub fn gen_case(t: &mut Tape) -> Case {
     }
     if lts.iter().any(|b| *b) {
         classes.push("explicit_lifetime_parameter");
+    }
+    if pick > 0 {
+        classes.push("output_borrows_through_lifetime_parameter");
     }
     let summary = format!("chain depth {depth}, async levels {first_sync}, end {}{}", ["entraited fn", "statically delegated leaf trait", "statically delegated impl block"][end], if end_async { " (async)" } else { "" });
     Case { src, summary, nontrivial: any_async || depth >= 2, classes }
